@@ -117,7 +117,7 @@ func (c *Ctx) ArgIs(rule, key string, call ssa.CallInstruction, idx int, expecte
 	}
 	got := NewTermer(fn).T(args[idx])
 	for _, e := range expected {
-		if got == e {
+		if termEq(got, e) {
 			c.Ok(rule, FuncName(fn)+"/"+key, c.pos(call), "argument "+fmt.Sprint(idx)+" is "+got)
 			return true
 		}
@@ -131,7 +131,7 @@ func (c *Ctx) TermIs(rule, key string, at ssa.Instruction, v ssa.Value, expected
 	fn := at.Parent()
 	got := NewTermer(fn).T(v)
 	for _, e := range expected {
-		if got == e {
+		if termEq(got, e) {
 			c.Ok(rule, FuncName(fn)+"/"+key, c.pos(at), "value is "+got)
 			return true
 		}
@@ -370,15 +370,50 @@ func (c *Ctx) CheckTable(rule string, fn *ssa.Function, atoms []string, spec fun
 		c.Bad(rule, name+"/undecided", pos, "function left the loop-free class: "+dt.Err)
 		return
 	}
+	// atoms are compared in canonical form (canon.go): the table's own atoms
+	// and row conditions are rewritten to the specification's spelling
 	want := map[string]bool{}
+	byCanon := map[string]string{}
 	for _, a := range atoms {
 		want[a] = true
+		byCanon[canonTerm(a)] = a
 	}
+	ren := map[string]string{}
 	for _, a := range dt.Atoms {
-		if !want[a] {
-			c.Bad(rule, name+"/unknown-atom:"+a, pos, "the function branches on a condition outside the specified atom set")
-			return
+		if want[a] {
+			continue
 		}
+		if to, ok := byCanon[canonTerm(a)]; ok {
+			ren[a] = to
+			continue
+		}
+		c.Bad(rule, name+"/unknown-atom:"+a, pos, "the function branches on a condition outside the specified atom set")
+		return
+	}
+	if len(ren) > 0 {
+		cp := &DTable{Err: dt.Err}
+		for _, a := range dt.Atoms {
+			if to, ok := ren[a]; ok {
+				a = to
+			}
+			cp.Atoms = append(cp.Atoms, a)
+		}
+		for _, r := range dt.Rows {
+			nr := DRow{Result: r.Result}
+			for _, c0 := range r.Conds {
+				neg := strings.HasPrefix(c0, "!")
+				a := strings.TrimPrefix(c0, "!")
+				if to, ok := ren[a]; ok {
+					a = to
+				}
+				if neg {
+					a = "!" + a
+				}
+				nr.Conds = append(nr.Conds, a)
+			}
+			cp.Rows = append(cp.Rows, nr)
+		}
+		dt = cp
 	}
 	n := len(atoms)
 	for m := 0; m < 1<<n; m++ {
